@@ -102,7 +102,7 @@ CHECKS = {
              "round trips and double pushes, A-B-A command sequences); after every position command the hook asks, for every legal move, the repetition answer the search would give "
              "at ply 1; TLC requires equality with RepDraw for every move (UciTrace.tla). The REAL search is observed too: a depth-1 search on the engine's "
              "own Searcher after every position command (event sink): every successor it enters must be valued as a draw (score zero, nothing searched "
-             "below) exactly when it is a third occurrence; a depth-2 search does the same for the nodes at ply 2.",
+             "below) exactly when it is a third occurrence; a depth-2 search does the same for the nodes at ply 2, a depth-5 search for every node at any ply whose position is a position of the game.",
         design_ref="DESIGN.md section 5, C09", note=_UCI_NOTE + " The hook mirrors search_position (push root) + negamax's ply>0 query.",
         technique="TLA+ protocol spec with game history; TLC-simulated histories; TLC trace validation of repetition answers"),
     "C13": dict(
@@ -164,7 +164,7 @@ CHECKS = {
              "after the deadline <= 1, nothing entered after a true poll, at most 2 nodes between consecutive polls (a missing poll in a "
              "loop shows as a gap of the size of its subtree); TLC validates the bounds (PromptTrace.tla). Wall clock (the timer's own arithmetic is bypassed "
              "by the budgets): go movetime / clock lines on the real binary incl. budgets of 0-5 ms and positions with a single legal move / a mate in one; "
-             "the budget is the one the real parser hands to the search; TLC rejects a case whose SMALLEST overrun over up to 5 repetitions exceeds 500 ms or that is not answered.",
+             "the budget is the one the real parser hands to the search; also SEQUENCES in one process (a long timed search, then a short one); TLC rejects a case whose SMALLEST overrun over up to 5 repetitions exceeds 500 ms or that is not answered.",
         design_ref="DESIGN.md section 5 and 7, C07",
         note="The small-constant clause is decided in node units; in milliseconds only the smallest overrun over repetitions counts (tolerance 500 ms). Budgets are sampled (every k only in the thorough tier up to the cap).",
         technique="TLA+/PlusCal search spec model-checked by TLC; node-budget traces of the real search validated by TLC"),
